@@ -315,39 +315,51 @@ def replay_kernel(chk, ns, kname, model, limit=False):
 
 
 def masking_and_pipeline(chk, tier, rng):
-    """E1: no undefined value reaches any of the 21 assembled components (T=0 row included); T=0 thermal rows are exactly zero."""
-    ctx = new_context()
-    H, K, _ = PC.declare_constants(ctx)
-    nq, np_, nv = 2, 3, 1
-    duck = PC.make_duck(ctx, nq, np_, nv, n_sym_T=1)
-    strain = symvars("e", (nv, 3), positive=True)
-    keys = KEYS if tier != "quick" else ["c11", "c12", "c44", "c14", "c15", "c56"]
-    t0 = time.time()
-    try:
-        res, proxy = PL.run_pipeline(duck, strain, keys)
-    except Exception as e:
-        chk.inconclusive("pipeline", "%s: %s" % (type(e).__name__, e))
+    """E1: no undefined value reaches any of the 21 assembled components (T=0 row included); T=0 thermal rows are exactly zero.
+    Temperature grids: T=0 first (T_MIN = 0), no T=0 point at all (T_MIN > 0), T=0 not in first position."""
+    res = keys = ctx = None
+    for grid in ("T0-first", "no-T0", "T0-last"):
+        ctx_ = new_context()
+        H, K, _ = PC.declare_constants(ctx_)
+        nq, np_, nv = 2, 3, 1
+        duck = PC.make_duck(ctx_, nq, np_, nv, n_sym_T=1 if grid != "no-T0" else 2, with_T0=(grid != "no-T0"), t0_last=(grid == "T0-last"))
+        strain = symvars("e", (nv, 3), positive=True)
+        keys_ = KEYS if tier != "quick" else (["c11", "c12", "c44", "c14", "c15", "c56"] if grid == "T0-first" else ["c11", "c12", "c44", "c15"])
+        t0 = time.time()
+        try:
+            res_, proxy = PL.run_pipeline(duck, strain, keys_)
+        except Exception as e:
+            chk.inconclusive("pipeline[%s]" % grid, "%s: %s" % (type(e).__name__, e))
+            continue
+        if grid == "T0-first":
+            res, keys, ctx = res_, keys_, ctx_
+        bad = []
+        for which in ("iso", "adi"):
+            for k in keys_:
+                a = numpy.asarray(res_[which][k], dtype=object)
+                for idx in numpy.ndindex(*a.shape):
+                    s = Sym.of(a[idx])
+                    if s.poison or any(ctx_.vars.get(n, {}).get("kind") == "undef" for n in Z._closure_vars(s)):
+                        bad.append((which, k, idx))
+        chk.obligation("pipeline[temperature grid %s]: no undefined value (0/0, x/0, inf) survives into any assembled component [%d keys x iso/adi x %d rows]"
+                       % (grid, len(keys_), len(duck.t_array)), "unsat" if not bad else "sat", seconds=round(time.time() - t0, 1), kind="definedness")
+        if bad:
+            d = PL.float_duck(2, 3, 1, 2, rng, t0=(grid != "no-T0"))
+            if grid == "T0-last":
+                d.t_array = d.t_array[::-1].copy()
+                d.qha_calculator.volume_base.pressures = d.qha_calculator.volume_base.pressures[::-1].copy()
+                d.qha_calculator.volume_base.heat_capacity = d.qha_calculator.volume_base.heat_capacity[::-1].copy()
+            with numpy.errstate(all="ignore"):
+                iso, adi, _ = PL.real_pipeline(d, numpy.array([[0.3, 0.33, 0.37]]), keys_)
+            nonfinite = [k for k in keys_ if not (numpy.all(numpy.isfinite(iso[k])) and numpy.all(numpy.isfinite(adi[k])))]
+            if nonfinite:
+                chk.violation("pipeline:non-finite[%s]" % grid, "assembled components %s contain NaN/inf on a temperature grid %s (T = %s)" % (
+                    nonfinite[:4], {"T0-first": "starting at 0 K", "no-T0": "with T_MIN > 0", "T0-last": "whose T = 0 point is not the first"}[grid],
+                    d.t_array.tolist()), dict(keys=nonfinite, temperatures=d.t_array.tolist()))
+            else:
+                chk.harness_error("undefined symbolic value %s did not reproduce as NaN/inf" % (bad[:2],))
+    if res is None:
         return
-    bad = []
-    for which in ("iso", "adi"):
-        for k in keys:
-            a = numpy.asarray(res[which][k], dtype=object)
-            for idx in numpy.ndindex(*a.shape):
-                s = Sym.of(a[idx])
-                if s.poison or any(ctx.vars.get(n, {}).get("kind") == "undef" for n in Z._closure_vars(s)):
-                    bad.append((which, k, idx))
-    chk.obligation("pipeline: no undefined value (0/0, x/0) survives into any assembled component [%d keys x iso/adi x (T=0, T>0)]" % len(keys),
-                   "unsat" if not bad else "sat", seconds=round(time.time() - t0, 1), kind="definedness")
-    if bad:
-        d = PL.float_duck(2, 3, 1, 2, rng)
-        with numpy.errstate(all="ignore"):
-            iso, adi, _ = PL.real_pipeline(d, numpy.array([[0.3, 0.33, 0.37]]), keys)
-        nonfinite = [k for k in keys if not (numpy.all(numpy.isfinite(iso[k])) and numpy.all(numpy.isfinite(adi[k])))]
-        if nonfinite:
-            chk.violation("pipeline:non-finite", "assembled components %s contain NaN/inf on an ordinary grid (T = 0 and T > 0)" % nonfinite[:4],
-                          dict(keys=nonfinite))
-        else:
-            chk.harness_error("undefined symbolic value %s did not reproduce as NaN/inf" % (bad[:2],))
     # T=0: thermal part exactly zero -> isothermal(T=0) has no Bose atom and adiabatic == isothermal there
     good = True
     for k in keys:
